@@ -719,4 +719,129 @@ example : receivedAnswer (runEvs witH init (okEvs.take 7)) "k" ⟨"", "", 4, "h"
 example : (recordEffects (runEvs witH init (okEvs.take 10)) "k" ⟨"", "", 4, "h"⟩ 2 4 11).any
     (fun p => match p with | .renPartFull "k" => true | _ => false) = true := by decide
 
+/-! ## the answer to "how many of these parts did you receive" -/
+
+theorem receivedCount_le (ask : State → PartQ → Bool × State) (s : State) (qs : List PartQ) :
+    (receivedCount ask s qs).1 ≤ qs.length := by
+  induction qs generalizing s with
+  | nil => simp [receivedCount]
+  | cons q qs ih =>
+    unfold receivedCount
+    split
+    · simp
+    · rename_i s' _
+      have := ih s'
+      simp only [List.length_cons]
+      omega
+
+/-- `received_count_is_prefix`: every part the count covers — the parts the sender will treat
+    as delivered — was itself answered "received" in the state in which it was asked (so
+    `received_claim_sound` applies to each of them); and the part right behind the count, if
+    any, was answered "not received". -/
+theorem received_count_is_prefix (ask : State → PartQ → Bool × State) (s : State) (qs : List PartQ) :
+    (∀ i (h : i < (receivedCount ask s qs).1),
+      (ask (askState ask s qs i) (qs[i]'(Nat.lt_of_lt_of_le h (receivedCount_le ask s qs)))).1 = true) ∧
+    (∀ (h : (receivedCount ask s qs).1 < qs.length),
+      (ask (askState ask s qs (receivedCount ask s qs).1) (qs[(receivedCount ask s qs).1]'h)).1 = false) := by
+  induction qs generalizing s with
+  | nil => exact ⟨fun i h => by simp [receivedCount] at h, fun h => by simp at h⟩
+  | cons q qs ih =>
+    cases hq : ask s q with
+    | mk a s' =>
+      cases a with
+      | false =>
+        have hc : receivedCount ask s (q :: qs) = (0, s') := by simp [receivedCount, hq]
+        refine ⟨fun i h => by rw [hc] at h; exact absurd h (Nat.not_lt_zero _), fun _ => ?_⟩
+        simp only [hc, askState, List.getElem_cons_zero, hq]
+      | true =>
+        have hc : (receivedCount ask s (q :: qs)).1 = (receivedCount ask s' qs).1 + 1 := by
+          simp [receivedCount, hq]
+        obtain ⟨ih1, ih2⟩ := ih s'
+        constructor
+        · intro i h
+          cases i with
+          | zero => simp [askState, hq]
+          | succ i =>
+            have hi : i < (receivedCount ask s' qs).1 := by omega
+            have := ih1 i hi
+            simpa [askState, hq] using this
+        · intro h
+          have h' : (receivedCount ask s' qs).1 < qs.length := by
+            simp only [List.length_cons] at h; omega
+          have := ih2 h'
+          simpa [hc, askState, hq] using this
+
+/-! ### … tied to the reachable states of the receiver -/
+
+theorem RecOkRun_append {H : Body → String} : ∀ (evs : List Ev) (s : State) (e : Ev),
+    RecOkRun H s evs → RecEvOk (runEvs H s evs) e → RecOkRun H s (evs ++ [e]) := by
+  intro evs
+  induction evs with
+  | nil => intro s e _ he; exact ⟨by simpa [runEvs] using he, trivial⟩
+  | cons x xs ih =>
+    intro s e h he
+    refine ⟨h.1, ih _ e h.2 ?_⟩
+    simpa [runEvs, List.foldl_cons] using he
+
+theorem RecReachableOk.step {H : Body → String} {s : State} (h : RecReachableOk H s) (e : Ev)
+    (he : RecEvOk s e) : RecReachableOk H (Stage.step H s e) := by
+  obtain ⟨evs, hok, rfl⟩ := h
+  exact ⟨evs ++ [e], RecOkRun_append evs _ e hok he, by simp [runEvs, List.foldl_append]⟩
+
+/-- one `partReceived` is two unconstrained events: the cache extension and the query -/
+theorem askPart_eq (H : Body → String) (now : Int) (s : State) (q : PartQ) :
+    askPart now s q =
+      (receivedAnswer (Stage.step H s (.op (.buildCache (receivedFrom q.ftime now) now))) q.n q.m q.beg q.fin,
+       Stage.step H (Stage.step H s (.op (.buildCache (receivedFrom q.ftime now) now))) (.op (.receivedQ q.n q.m))) := rfl
+
+theorem askState_ok {H : Body → String} (now : Int) : ∀ (qs : List PartQ) (s : State) (i : Nat),
+    RecReachableOk H s → RecReachableOk H (askState (askPart now) s qs i) := by
+  intro qs
+  induction qs with
+  | nil => intro s i h; cases i <;> simpa [askState] using h
+  | cons q qs ih =>
+    intro s i h
+    cases i with
+    | zero => simpa [askState] using h
+    | succ i =>
+      simp only [askState]
+      apply ih
+      rw [askPart_eq H]
+      exact (h.step (.op (.buildCache (receivedFrom q.ftime now) now)) trivial).step
+        (.op (.receivedQ q.n q.m)) trivial
+
+/-- `received_count_sound`: in every OK-reachable state of the receiver, for every query and
+    every part the answer counts (the parts the sender then drops from the payload as
+    delivered): the part was answered in an OK-reachable state, and when the cache does not
+    know the file there, every byte of the part lies in a range written into the current
+    staged file, or the announced version is already logged. -/
+theorem received_count_sound {H : Body → String} {s : State} (h : RecReachableOk H s) (now : Int)
+    (qs : List PartQ) (i : Nat) (hi : i < (receivedCount (askPart now) s qs).1) :
+    ∃ s1, RecReachableOk H s1 ∧
+      receivedAnswer s1 (qs[i]'(Nat.lt_of_lt_of_le hi (receivedCount_le _ s qs))).n
+        (qs[i]'(Nat.lt_of_lt_of_le hi (receivedCount_le _ s qs))).m
+        (qs[i]'(Nat.lt_of_lt_of_le hi (receivedCount_le _ s qs))).beg
+        (qs[i]'(Nat.lt_of_lt_of_le hi (receivedCount_le _ s qs))).fin = true ∧
+      (s1.mem.cache (qs[i]'(Nat.lt_of_lt_of_le hi (receivedCount_le _ s qs))).n = none →
+        (∃ j, Cur s1.disk (qs[i]'(Nat.lt_of_lt_of_le hi (receivedCount_le _ s qs))).n = some j ∧
+          ∀ x, (qs[i]'(Nat.lt_of_lt_of_le hi (receivedCount_le _ s qs))).beg ≤ x →
+            x < (qs[i]'(Nat.lt_of_lt_of_le hi (receivedCount_le _ s qs))).fin → covered (s1.disk.written j) x) ∨
+        LoggedV s1.disk (qs[i]'(Nat.lt_of_lt_of_le hi (receivedCount_le _ s qs))).n
+          (qs[i]'(Nat.lt_of_lt_of_le hi (receivedCount_le _ s qs))).m.hash) := by
+  have hp := (received_count_is_prefix (askPart now) s qs).1 i hi
+  have hs := askState_ok (H := H) now qs s i h
+  generalize hq : (qs[i]'(Nat.lt_of_lt_of_le hi (receivedCount_le _ s qs))) = q at hp ⊢
+  rw [askPart_eq H] at hp
+  have h1 := hs.step (.op (.buildCache (receivedFrom q.ftime now) now)) trivial
+  exact ⟨_, h1, hp, fun hc => received_claim_sound h1 q.n q.m q.beg q.fin hc hp⟩
+
+
+/-- counting every part on record instead of the leading ones claims a part that was never
+    received: query [not received, received] is answered 1, i.e. "the first part arrived". -/
+example :
+    let ask : State → PartQ → Bool × State := fun s q => (q.beg == 2, s)
+    let qs : List PartQ := [⟨"f", ⟨"", "", 4, "h"⟩, 0, 2, 0⟩, ⟨"f", ⟨"", "", 4, "h"⟩, 2, 4, 0⟩]
+    (receivedCount ask init qs).1 = 0 ∧ (receivedCountAll ask init qs).1 = 1 ∧
+      (ask init qs[0]).1 = false := by decide
+
 end Sts.Stage
